@@ -5,7 +5,7 @@ import shutil
 from harness.core import Prop, attempt, ok, err, E, exc_code
 from harness.props import filecommon as fc
 
-STR_ALPHA = ["a", "B", " ", ",", "\t", '"', "'", "é", "€", "😀", ";", "0", "-", "\\", "|"]
+STR_ALPHA = ["a", "B", " ", ",", "\t", '"', "'", "é", "€", "😀", ";", "0", "-", "\\", "|", "\x0b", "\x0c", "\x1c"]
 HOSTILE = STR_ALPHA + ["\n", "\r", "\x00", "\x1f", " ", "\ud800", "{", "}", "[", "]", ":"]
 
 
@@ -42,7 +42,7 @@ class P(Prop):
     thorough_n = 9000
     case_timeout = 30.0
     rule = ("three kinds of cases. csv: a sequence of save() calls interleaved over several dynamically created CSV and TSV "
-            "record classes (1-4 fields of int/float/str; strings with delimiters, quotes, blanks, non-ASCII, empty) - "
+            "record classes (1-4 fields of int/float/str; strings with delimiters, quotes, blanks, non-ASCII, VT / FF / FS control characters, empty) - "
             "compared: the exact saved string, the fields read back from it and from the stored line form, single-line, "
             "load(save(r)) == r.  json: records with hostile strings (control characters, lone surrogates, line/paragraph "
             "separators), ints, floats, bools, None, nested lists/dicts: load(save(r)) == r and single line (codec "
